@@ -360,7 +360,9 @@ def width_groups(prog):
                 ta, tb = list(ties[f]), list(ties[op['src']])
                 if ta and tb:
                     union(ta[0], tb[0])
-    out_t = ties[prog['out']]
+    out_t = set(ties[prog['out']])
+    if prog.get('out2'):
+        out_t |= set(ties[prog['out2']])
     for a in out_t:
         union('@output', a)
     find('@output')
